@@ -374,6 +374,33 @@ def run_load_shard(args):
     return rc, out.decode("latin-1"), err
 
 
+def run_load(ck, exe, cases, workdir, tag, nshards=None):
+    """cases: list of dict(id, apath, ppath, nframes).  Returns (results dict, aborted list)."""
+    nshards = nshards or min(vlib.NCPU, max(1, len(cases) // 4))
+    cases = sorted(cases, key=lambda c: (c["ppath"], c["id"]))
+    shards = [[] for _ in range(nshards)]
+    # keep equal payloads together (the harness caches the memory load of the last payload)
+    per = (len(cases) + nshards - 1) // nshards
+    for i, c in enumerate(cases):
+        shards[min(i // max(per, 1), nshards - 1)].append(c)
+    jobs = []
+    for i, sh in enumerate(shards):
+        if not sh:
+            continue
+        lf = os.path.join(workdir, "list-%s-%d.txt" % (tag, i))
+        with open(lf, "w") as f:
+            for c in sh:
+                f.write("%s %s %s %d\n" % (c["id"], c["apath"], c["ppath"], c["nframes"]))
+        jobs.append((exe, lf))
+    results, aborted = {}, []
+    for (rc, out, err), job in zip(vlib.pmap(run_load_shard, jobs), jobs):
+        results.update(parse_load(out))
+        if rc != 0:
+            last = re.findall(r"^B (\S+)$", out, re.M)
+            aborted.append((job[1], last[-1] if last else None, rc, err))
+    return results, aborted
+
+
 def oracle_one(kv, md5_expected, check_payload=True):
     """the property on one archive; returns list of failure kinds"""
     fails = []
